@@ -336,3 +336,49 @@ Print Assumptions C05_translated_legacy_search_is_the_model.
 Print Assumptions C05_translated_legacy_search_is_the_search_of_has.
 Print Assumptions C05_translated_legacy_eytzinger_is_eytz.
 Print Assumptions C05_translated_legacy_getCleanSet_is_clean.
+
+(* ---------- (Reader).Has — the whole lookup of a signature (bucketteer/read.go) — translated on every check
+   (Generated/GoLiteHasC05.v): prefix -> bucket offset, the hash count read through readFullAt, the section reader over
+   the bucket's hashes, the signature's hash, and searchEytzinger whose getter is the function literal reading the
+   index-th hash through that section reader (translated as its own function "Reader.Has$getter"; the first lemma
+   records what the translator saw being passed). The getter oracle is interpreted as exactly that function run over
+   the section reader Has builds. For EVERY file reader (all-or-nothing reads that may fail anywhere), offset table and
+   well-formed signature, Has returns what the model's has returns (C05_Model.has — the function the no-false-negative
+   theorems above are about): true / false, or an error where the model says Err; the uint32 wrap of the section size
+   and the int64 conversion of the offset are the model's. ---------- *)
+Require YF.Generated.GoLiteHasC05 YF.GoLiteC05_Has.
+
+Lemma C05_translated_Has_passes_the_section_getter :
+  GoLiteHasC05.binding_Reader_Has_getter = ("searchEytzinger"%string, "getter"%string, "Reader.Has$getter(bucketReader)"%string).
+Proof. reflexivity. Qed.
+
+Theorem C05_translated_Has_is_the_models_has :
+  forall (hash : list N -> N) (R : N -> N -> option (list N)),
+  (forall o l bs, R o l = Some bs -> List.length bs = N.to_nat l) ->
+  (forall o l bs, R o l = Some bs -> Forall (fun b => b < 256) bs) ->
+  (forall o l bs, R o l = Some bs -> o + l < 4611686018427387904) ->          (* files are shorter than 2^62 bytes *)
+  forall (base : N) (tab : list N) (mtab : list (N * N)),
+  Z.of_nat (List.length tab) = 65536%Z -> Forall (fun v => v < two64) tab ->
+  (forall p, p < 65536 -> lookup_off V2 mtab p =
+                          (if nth (N.to_nat p) tab 0 =? maxu64 then None else Some (nth (N.to_nat p) tab 0))) ->
+  forall (s : list N) (f : nat), wf_sig s -> (search_fuel + 2 < f)%nat ->
+  GoLiteC05_Has.enc_has (has hash V2 R {| r_tab := mtab; r_base := base |} s)
+    (GoLite.call GoLiteHasC05.prog (GoLiteC05_Has.ext_of hash R base tab s) f "Reader.Has"%string
+       [GoLiteC05_Has.rv tab; GoLite.VInts (map Z.of_N s)]).
+Proof. exact GoLiteC05_Has.Has_is_has. Qed.
+
+Print Assumptions C05_translated_Has_is_the_models_has.
+
+(* the translated Has RUNS: one bucket (prefix 1) holding the hash 777 at content offset 0; a signature hashing to 777
+   is found, one hashing to 778 is not, and on a file cut inside the bucket the first is an error, not "false" *)
+Example C05_translated_Has_runs :
+  let file := (Codec.le_enc 4 1 ++ Codec.le_enc 8 777)%list in
+  let tab := (18446744073709551615 :: 0 :: repeat 18446744073709551615 (N.to_nat 65534))%N in
+  let s := (1 :: repeat 0 63)%N in
+  let run := fun (h : N) (fl : list N) =>
+    GoLite.call GoLiteHasC05.prog (GoLiteC05_Has.ext_of (fun _ => h) (file_reader fl) 0 tab s) 70 "Reader.Has"%string
+      [GoLiteC05_Has.rv tab; GoLite.VInts (map Z.of_N s)] in
+  run 777 file = GoLite.RRet (GoLite.VTuple [GoLite.VBool true; GoLite.VNil]) /\
+  run 778 file = GoLite.RRet (GoLite.VTuple [GoLite.VBool false; GoLite.VNil]) /\
+  run 777 (firstn 9 file) = GoLite.RRet (GoLite.VTuple [GoLite.VBool false; GoLite.VErr "read"%string]).
+Proof. vm_compute. repeat split; reflexivity. Qed.
